@@ -1,7 +1,7 @@
 (* C09 -- Schedules conclude, repeat and report exhaustion exactly as documented
    Property theorems only: each proof is one application of a lemma proved in Proofs/, followed by Print Assumptions. *)
 From Coq Require Import ZArith List Bool.
-From CS Require MSTerm OnlineFlags Flags RevConv RevBridge4 RevolveRun PassRepeat Online DiskRun DiskBridge3 HRevRun HRevTop GenLang GenBasic GenLang2 GenTwo.
+From CS Require MSTerm OnlineFlags Flags RevConv RevBridge4 RevolveRun PassRepeat Online DiskRun DiskBridge3 HRevRun HRevTop GenLang GenBasic GenLang2 GenTwo GenLang3 GenMulti.
 From CS Require Import Actions NAdvance Multistage Exec Sched RunFacts Projections BasicInv MultistageRun AllocTotal TLBridge MixBridge.
 Import ListNotations.
 Open Scope Z_scope.
@@ -28,6 +28,19 @@ Theorem C09_twolevel_source_is_model :
 Proof. exact (@GenTwo.two_from_start). Qed.
 Print Assumptions C09_twolevel_source_is_model.
 End M_C09_twolevel_source_is_model.
+
+(* THE MODEL OF MultistageCheckpointSchedule IS THE SOURCE: GenMulti.multi_prog_model is the program (generator language GenLang3) that harness/translate.py produces from MultistageCheckpointSchedule._iterator, the nested helper write(n) inlined at its two call sites; Gen/MultistageGen.v re-translates the current source on every run and proves it equal to that term by conversion.  For every parameter tuple the constructor accepts, resuming that program request by request gives under EVERY history of next() and finalize(k) calls exactly the observations (outcome, n, r, max_n, is_exhausted) of the schedule object of Model/Sched.v (srun_ops: Sched.next / Sched.finalize on the Multistage machine) -- so the Multistage theorems of this file, stated on the extracted model, are theorems about the translated source.  (The unit total self._snapshots_in_ram + self._snapshots_on_disk is read as the length of the label tuple self._storage, which is what __init__ recounts them from; the allocation of the labels, allocate_snapshots, is tied by the correspondence.) *)
+Module M_C09_multistage_source_is_model.
+Import GenMulti.
+Theorem C09_multistage_source_is_model :
+  forall (n ram disk : Z) (tj : NAdvance.traj) (ops : list Online.op) (s : Sched.sched),
+         Sched.construct (Sched.PMulti n ram disk tj) = Actions.Ok s ->
+         exists c : Multistage.cfg,
+           Multistage.construct n ram disk tj = Actions.Ok c /\
+           grun_ops (cfg3 c) [GenLang3.FS multi_prog_model] (g_init n) ops = srun_ops s ops.
+Proof. exact (@GenMulti.multi_from_start). Qed.
+Print Assumptions C09_multistage_source_is_model.
+End M_C09_multistage_source_is_model.
 
 (* FLAGS, all thirteen classes, every parameter tuple the constructor accepts, every history of next() / finalize(k) requests (ops), any executor parameters: before the first request is_exhausted = is_running = False; after every next() is_running = True; is_exhausted after a request = (the final action of the class has been yielded so far) -- final_action: EndForward for None, EndReverse for the offline classes and SingleDisk(move), none for SingleMemory, SingleDisk(copy), TwoLevel; no action is yielded once the final action has been seen (only StopIteration / an exception), and finalize never changes the flag. flags_hist is the trace rule, defined in Proofs/OnlineFlags.v *)
 Module M_C09_flags.
